@@ -1,9 +1,9 @@
 package main
 
 import (
-	"strings"
 	"encoding/json"
 	"fmt"
+	"strings"
 
 	"github.com/Trendyol/go-dcp/helpers"
 	"github.com/Trendyol/go-dcp/membership"
